@@ -46,25 +46,24 @@ TRUSTED = ["float32 arithmetic of upgma/nj modelled as exact rational arithmetic
            "no rounding occurs; the float stream is judged by the oracle with a tolerance)",
            "Python float repr/float() round trip of float32 values (exercised by the oracle, modelled as an abstract codec)",
            "np.allclose modelled by its documented formula"]
-ASSUMPTIONS = ["'neighbour joining recovers every additive metric' is a Lean theorem only modulo the cherry lemma "
-               "(Q-minimal pair is a cherry) for more than four live taxa; unconditional for 4x4; for n >= 5 it is checked "
-               "by the oracle on random trees -> additive matrices (exact dyadic stream and float stream)"]
-LEVEL_TEXT = ("Lean theorems for all inputs on the executable model (26, no sorry): UPGMA and NJ leaves = every index "
-              "exactly once (loop invariant + termination, NJ incl. the three-way join); NJ totality (every accepted "
-              "matrix, zero distances and ties included, yields a tree); UPGMA merge height = half the average linkage "
-              "of the merged clusters, every leaf under a node at distance height(node), no negative branch; "
-              "distance_to/get_distance = explicit downward path sums through the LCA, LCA = longest common prefix; "
-              "the leaf-to-leaf matrix T.rows IS the matrix of distance_to queries (C19_rows_eq_distance), as_binary(Tree) "
-              "is binary, keeps the leaf order and every leaf-to-leaf distance_to answer; copy; Newick round trip for any "
-              "arity, labels None or LabelsOk, with/without distances, under arbitrary injected whitespace; three defect "
-              "witnesses. NJ on additive matrices (four-point condition): branch lengths of a joined cherry are the true "
-              "edge lengths, the reduced matrix stays symmetric/zero-diagonal/four-point and is the metric of the tree "
-              "with the cherry contracted, the final three-way join is exact, and by induction over the loop all "
-              "distance_to answers equal D PROVIDED the Q-minimal pair is a cherry in every state (C19_nj_additive, "
-              "hypothesis CherryLemma n); that cherry lemma is proved for four live taxa, so the clause is an "
-              "unconditional theorem for 4x4 matrices (C19_nj_additive_4). PARTIAL: the cherry lemma for more than four "
-              "live taxa (Saitou-Nei / Studier-Keppler) is not proved; for n >= 5 'NJ recovers every additive metric' "
-              "rests on the oracle (exact dyadic stream with equality, float stream with tolerance).")
+ASSUMPTIONS = ["additivity of a distance matrix is the four-point condition; that the path metric of every tree with "
+               "non-negative branch lengths satisfies it is proved (C19_tree_metric_four_point), the converse direction of "
+               "Buneman's theorem (every four-point matrix comes from a tree) is not needed and not proved"]
+LEVEL_TEXT = ("Lean theorems for all inputs on the executable model (30, no sorry); every clause of the property is a "
+              "theorem: UPGMA and NJ leaves = every index exactly once (loop invariant + termination, NJ incl. the "
+              "three-way join); NJ totality (every accepted matrix, zero distances and ties included, yields a tree); "
+              "UPGMA merge height = half the average linkage of the merged clusters, every leaf under a node at distance "
+              "height(node), no negative branch; NJ reproduces every leaf-to-leaf path length of every additive matrix "
+              "(C19_nj_additive: n >= 4, symmetric, zero diagonal, four-point condition; C19_nj_tree_metric: the path-length "
+              "matrix of ANY tree with non-negative branch lengths; zero-length edges, identical taxa and all ties included) via the cherry lemma proved for any number of taxa (C19_cherry_lemma / C19_nj_cherry: "
+              "every Q-minimal pair is a cherry, by an averaging argument over the smaller end-side), exact branch lengths "
+              "of a joined cherry, reduction keeps symmetry/zero diagonal/four-point and the tree-matrix invariant, exact "
+              "final three-way join; distance_to/get_distance = explicit downward path sums through the LCA, LCA = longest "
+              "common prefix; T.rows is the matrix of distance_to queries; as_binary(Tree) is binary, keeps the leaf order "
+              "and every leaf-to-leaf distance_to answer; copy; Newick round trip for any arity, labels None or LabelsOk, "
+              "with/without distances, under arbitrary injected whitespace; three defect witnesses. The model is tied to "
+              "the Cython code by the correspondence stream; float32 rounding, Python float formatting and numpy helpers "
+              "are modelled, not verified.")
 LEVEL_NOTE = "float32 rounding, Python float formatting/parsing and numpy validation helpers are modelled, not verified"
 TECHNIQUE = "Lean 4 proof (loop invariants over the merge loop, structural induction over rose trees) + correspondence"
 
